@@ -74,6 +74,9 @@ pub struct Report {
     pub transitions: u64,
     pub traces_validated: u64,
     pub machinery_errors: Vec<String>,
+    /// hashed abstract states / transitions (exact distinct counts across shards)
+    pub state_set: BTreeSet<u64>,
+    pub transition_set: BTreeSet<u64>,
     max_samples: usize,
 }
 
@@ -107,6 +110,8 @@ impl Report {
             transitions: 0,
             traces_validated: 0,
             machinery_errors: vec![],
+            state_set: BTreeSet::new(),
+            transition_set: BTreeSet::new(),
             max_samples: 5,
         }
     }
@@ -164,7 +169,92 @@ impl Report {
         self.nontrivial.len() as u64 + self.nontrivial_extra
     }
 
+    /// Merge the report of a child process (see shard.rs). Hash sets travel in `extra`.
+    pub fn merge_child(&mut self, j: &Value) {
+        self.evaluations += j["evaluations"].as_u64().unwrap_or(0);
+        if let Some(a) = j["extra"]["_nontrivial"].as_array() {
+            for x in a {
+                self.nontrivial.insert(x.as_u64().unwrap());
+            }
+        }
+        self.nontrivial_extra += j["extra"]["_nontrivial_extra"].as_u64().unwrap_or(0);
+        for (name, set) in [("_states", 0), ("_transitions", 1)] {
+            if let Some(a) = j["extra"][name].as_array() {
+                for x in a {
+                    if set == 0 {
+                        self.state_set.insert(x.as_u64().unwrap());
+                    } else {
+                        self.transition_set.insert(x.as_u64().unwrap());
+                    }
+                }
+            }
+        }
+        self.traces_validated += j["traces_validated_against_impl"].as_u64().unwrap_or(0);
+        if let Some(o) = j["outcomes"].as_object() {
+            for (k, v) in o {
+                *self.outcomes.entry(k.clone()).or_insert(0) += v.as_u64().unwrap_or(0);
+            }
+        }
+        if let Some(o) = j["info"].as_object() {
+            for (k, v) in o {
+                *self.info.entry(k.clone()).or_insert(0) += v.as_u64().unwrap_or(0);
+            }
+        }
+        if let Some(a) = j["samples"].as_array() {
+            for s in a {
+                self.sample(s.clone());
+            }
+        }
+        if let Some(a) = j["violations"].as_array() {
+            for v in a {
+                let key = v["key"].as_str().unwrap_or("?");
+                let n = v["count"].as_u64().unwrap_or(1);
+                let e = self
+                    .violations
+                    .entry(key.to_string())
+                    .or_insert_with(|| (v["what"].as_str().unwrap_or("").to_string(), v["case"].clone(), 0));
+                e.2 += n;
+            }
+        }
+        if let Some(a) = j["caps"].as_array() {
+            for c in a {
+                self.cap(c.as_str().unwrap_or("cap"));
+            }
+        }
+        if let Some(a) = j["machinery_errors"].as_array() {
+            for c in a {
+                self.machinery_errors.push(c.as_str().unwrap_or("?").to_string());
+            }
+        }
+        if let Some(o) = j["extra"].as_object() {
+            for (k, v) in o {
+                if k.starts_with('_') {
+                    continue;
+                }
+                // numeric extras add up, others keep the first value
+                match (self.extra.get(k).and_then(|x| x.as_u64()), v.as_u64()) {
+                    (Some(a), Some(b)) => {
+                        self.extra.insert(k.clone(), serde_json::json!(a + b));
+                    }
+                    (None, _) if !self.extra.contains_key(k) => {
+                        self.extra.insert(k.clone(), v.clone());
+                    }
+                    _ => {}
+                }
+            }
+        }
+    }
+
     pub fn to_json(&self) -> Value {
+        let mut extra = self.extra.clone();
+        if std::env::var("JBKMC_EMIT_SETS").is_ok() {
+            extra.insert("_nontrivial".into(), json!(self.nontrivial.iter().collect::<Vec<_>>()));
+            extra.insert("_nontrivial_extra".into(), json!(self.nontrivial_extra));
+            extra.insert("_states".into(), json!(self.state_set.iter().collect::<Vec<_>>()));
+            extra.insert("_transitions".into(), json!(self.transition_set.iter().collect::<Vec<_>>()));
+        }
+        let states = self.states.max(self.state_set.len() as u64);
+        let transitions = self.transitions.max(self.transition_set.len() as u64);
         let violations: Vec<Value> = self
             .violations
             .iter()
@@ -181,11 +271,11 @@ impl Report {
             "samples": self.samples,
             "violations": violations,
             "info": self.info,
-            "extra": self.extra,
+            "extra": extra,
             "exhaustive": self.exhaustive,
             "caps": self.caps,
-            "states": self.states,
-            "transitions": self.transitions,
+            "states": states,
+            "transitions": transitions,
             "traces_validated_against_impl": self.traces_validated,
             "machinery_errors": self.machinery_errors,
             "wall_s": self.start.elapsed().as_secs_f64(),
